@@ -75,9 +75,23 @@ class Driver:
 
     def ask(self, *fields) -> str:
         line = ' '.join(str(f) for f in fields)
+        if os.environ.get('VERIF_DRIVER_LOG'):
+            with open(os.environ['VERIF_DRIVER_LOG'], 'w') as fh:
+                fh.write(line + '\n')
         self.p.stdin.write(line + '\n')
         self.p.stdin.flush()
         self.n += 1
+        # the model is total but some walks (FOLLOW / `***` on trees with several links to ancestors) are exponential in
+        # the fuel: a reply that does not come within the limit is 'timeout' (never a verdict); the driver is restarted
+        import select
+        limit = float(os.environ.get('VERIF_DRIVER_TIMEOUT', '45'))
+        ready, _, _ = select.select([self.p.stdout], [], [], limit)
+        if not ready:
+            self.p.kill()
+            self.p.wait()
+            self.p = subprocess.Popen([DRIVER], stdin=subprocess.PIPE, stdout=subprocess.PIPE, text=True, bufsize=1 << 20)
+            self.timeouts = getattr(self, 'timeouts', 0) + 1
+            return 'timeout'
         out = self.p.stdout.readline()
         if not out:
             raise RuntimeError(f'driver died on: {line}')
